@@ -600,10 +600,16 @@ class BodyPartReader:
         if encoding == "identity":
             return data
         if encoding in {"deflate", "gzip"}:
-            return ZLibDecompressor(
+            d = ZLibDecompressor(
                 encoding=encoding,
                 suppress_deflate_header=True,
-            ).decompress_sync(data, max_length=self._max_decompress_size)
+            )
+            decoded = d.decompress_sync(data, max_length=self._max_decompress_size)
+            while d.data_available:
+                decoded += d.decompress_sync(
+                    b"", max_length=self._max_decompress_size
+                )
+            return decoded
 
         raise RuntimeError(f"unknown content encoding: {encoding}")
 
